@@ -643,8 +643,44 @@ func (x *Exec) callFunc(s *State, fn *types.Func, call *ast.CallExpr) []*Term {
 	// unknown or too deep: havoc
 	if fi == nil {
 		x.abstract("external call " + fn.FullName())
+		if extCallPure(fn) {
+			// determinism is assumed only for plain functions and for the read-only font tables; methods of
+			// other external types may carry hidden state (strings.Builder, time.Time ...)
+			if fn.Pkg().Path() == "time" || (sig.Recv() != nil && fn.Pkg().Path() != "github.com/tdewolff/font") {
+				return x.havocResults(s, call)
+			}
+			// deterministic: an uninterpreted function of receiver, arguments and the heap epoch
+			as := []*Term{}
+			if recv != nil {
+				as = append(as, recv)
+			}
+			as = append(as, args...)
+			as = append(as, x.epochOf(s))
+			var out []*Term
+			for i := 0; i < sig.Results().Len(); i++ {
+				rt := sig.Results().At(i).Type()
+				v := x.uf(fmt.Sprintf("ext_%s_%d", sanitize(fn.FullName()), i), x.eng.tm.sortOf(rt), as...)
+				s.assume(x.typeInv(s, v, rt, 0))
+				out = append(out, v)
+			}
+			return out
+		}
 		if fn.Pkg() != nil && pureExternalPkgs[fn.Pkg().Path()] {
-			return x.havocResults(s, call)
+			// callback-taking function of a side-effect-free external package: it can reach the verified
+			// module's memory only through its interface/function arguments
+			var names []string
+			if x.callbackWriteNames(call, func(n string) { names = append(names, n) }) {
+				for _, n := range names {
+					if n == "$alloc" || n == "$balloc" {
+						old := x.heapGet(s, n, SInt)
+						x.havocHeap(s, n)
+						s.assume(Cmp("<=", old, s.heap[n]))
+						continue
+					}
+					x.havocHeap(s, n)
+				}
+				return x.havocResults(s, call)
+			}
 		}
 	} else {
 		x.abstract("call not inlined (depth/recursion) " + fn.FullName())
@@ -1440,6 +1476,67 @@ var pureExternalPkgs = map[string]bool{
 	"time": true, "unicode/utf16": true, "unicode/utf8": true, "unicode": true, "strings": true, "strconv": true,
 	"math": true, "math/bits": true, "errors": true, "path/filepath": true, "image/color": true,
 	"github.com/tdewolff/font": true, "github.com/go-text/typesetting/language": true,
+}
+
+// extCallPure: a function of a whitelisted external package that takes no callback (interface or function
+// typed parameter through which it could call back into, and write, the verified module's objects)
+func extCallPure(fn *types.Func) bool {
+	if fn.Pkg() == nil || !pureExternalPkgs[fn.Pkg().Path()] {
+		return false
+	}
+	sig, ok := fn.Type().(*types.Signature)
+	if !ok {
+		return false
+	}
+	for i := 0; i < sig.Params().Len(); i++ {
+		switch sig.Params().At(i).Type().Underlying().(type) {
+		case *types.Interface, *types.Signature:
+			return false
+		}
+	}
+	return true
+}
+
+// callbackWriteNames: heaps an external callback-taking call may write: for every interface-typed parameter
+// whose argument is statically a pointer to a struct of the verified module, the fields of that struct type and
+// the memories of its slice-typed fields. False when some callback argument's target is not known statically.
+func (x *Exec) callbackWriteNames(call *ast.CallExpr, add func(string)) bool {
+	fn, _ := x.calleeObj(call).(*types.Func)
+	if fn == nil {
+		return false
+	}
+	sig := fn.Type().(*types.Signature)
+	for i, a := range call.Args {
+		var pt types.Type
+		if i < sig.Params().Len() {
+			pt = sig.Params().At(i).Type()
+		} else if sig.Variadic() {
+			pt = sig.Params().At(sig.Params().Len() - 1).Type()
+		}
+		if pt == nil {
+			return false
+		}
+		switch pt.Underlying().(type) {
+		case *types.Signature:
+			return false
+		case *types.Interface:
+			at := x.typeOf(a)
+			ptr, ok := at.Underlying().(*types.Pointer)
+			if !ok || !isStruct(ptr.Elem()) {
+				return false
+			}
+			si := x.eng.tm.structOf(ptr.Elem())
+			for j, f := range si.fields {
+				add(fieldHeapName(si, j))
+				if st, ok := f.Type().Underlying().(*types.Slice); ok {
+					add(memName(x.eng.tm.sortOf(st.Elem())))
+				}
+			}
+			add("$alloc")
+			add("$balloc")
+		}
+	}
+	return true
 }
 
 // callStatic: call of a known function with an already evaluated receiver
